@@ -182,10 +182,28 @@ class Ctx:
             for k, v in (res.get('backend_s') or {}).items():
                 self.backend_s[k] = self.backend_s.get(k, 0.0) + v
             self.settle(o, res['status'], res.get('backend', 'z3'), res.get('detail', ''), res.get('model'))
+            if res['status'] != PROVED:
+                n_open[0] += 1
 
+        n_open = [0]
+        try:
+            self._discharge_loop(pending, running, spawn, reap, workers, n_open, signal)
+        finally:
+            for pid in list(running):
+                try:
+                    os.kill(pid, signal.SIGKILL)
+                    os.waitpid(pid, 0)
+                except Exception:
+                    pass
+
+    def _discharge_loop(self, pending, running, spawn, reap, workers, n_open, signal):
         while pending or running:
             while pending and len(running) < workers:
-                spawn(pending.pop(0))
+                nxt = pending.pop(0)
+                # once many obligations are already refuted / open the verdict of the run is settled: later ones are
+                # tried with z3 only (no 3 x budget of second opinions per obligation)
+                nxt._fast = n_open[0] > 24
+                spawn(nxt)
             # wait for any child
             time.sleep(0.005)
             for pid in list(running):
@@ -252,6 +270,9 @@ class Ctx:
             reason = s.reason_unknown()
         except Exception:
             pass
+        if getattr(o, '_fast', False):
+            return dict(out, status=UNDECIDED, detail=f'z3: unknown ({reason}); second solvers skipped (many open '
+                                                      f'obligations already)')
         smt = s.to_smt2()
         r2, be, secs, txt = self.second_opinion_smt(smt)
         bs[be] = bs.get(be, 0.0) + secs
@@ -383,6 +404,116 @@ def _exc_name(e):
 
 def _same_exc(a, b):
     return a.cls is b.cls
+
+
+import json
+import signal
+
+
+def parallel_jobs(ctx, jobs, run_job, name_of, workers=14, hard_s=None):
+    """one forked worker per job: obligation generation and discharge in the child; results come back as JSON"""
+    pending = list(jobs)
+    running = {}
+    results = []
+
+    def spawn(sh):
+        r, w = os.pipe()
+        pid = os.fork()
+        if pid == 0:
+            try:
+                os.close(r)
+                sub = Ctx(ctx.prop, ctx.interp, ctx.tier, ctx.seed)
+                sub.timeout_ms = ctx.timeout_ms
+                status, msg = 'ok', ''
+                t0 = time.time()
+                try:
+                    run_job(sub, sh)
+                    sub.discharge_all(workers=2)
+                except Unsupported as e:
+                    status, msg = 'undecided', f'{name_of(sh)}: unsupported construct / drift: {e}'
+                out = {'status': status, 'message': msg, 'seconds': time.time() - t0,
+                       'backends': sub.backends, 'backend_s': sub.backend_s,
+                       'obligations': [dict(o.as_dict(), replay=getattr(o, 'replay', None)) for o in sub.obligations]}
+                data = json.dumps(out, default=str).encode()
+                os.write(w, data)
+            except BaseException as e:  # noqa
+                import traceback
+                try:
+                    os.write(w, json.dumps({'status': 'crash', 'message': f'{name_of(sh)}: {type(e).__name__}: {e}\n' +
+                                            traceback.format_exc()[-1500:], 'obligations': []}).encode())
+                except Exception:
+                    pass
+            finally:
+                os._exit(0)
+        os.close(w)
+        running[pid] = (sh, r, time.time() + hard_s, b'')
+
+    import select
+    hard_s = hard_s or (600 if ctx.tier == 'quick' else 3000)
+    try:
+      while pending or running:
+          while pending and len(running) < workers:
+              spawn(pending.pop(0))
+          fds = {r: pid for pid, (sh, r, dl, buf) in running.items()}
+          ready, _, _ = select.select(list(fds), [], [], 0.5)
+          for fd in ready:
+              pid = fds[fd]
+              sh, r, dl, buf = running[pid]
+              chunk = os.read(r, 1 << 20)
+              if chunk:
+                  running[pid] = (sh, r, dl, buf + chunk)
+              else:
+                  os.close(r)
+                  try:
+                      os.waitpid(pid, 0)
+                  except Exception:
+                      pass
+                  del running[pid]
+                  try:
+                      results.append((sh, json.loads(buf.decode())))
+                  except Exception:
+                      results.append((sh, {'status': 'crash', 'message': f'{name_of(sh)}: worker died', 'obligations': []}))
+          for pid in list(running):
+              sh, r, dl, buf = running[pid]
+              if time.time() > dl:
+                  try:
+                      os.kill(pid, signal.SIGKILL)
+                      os.waitpid(pid, 0)
+                  except Exception:
+                      pass
+                  os.close(r)
+                  del running[pid]
+                  results.append((sh, {'status': 'undecided', 'message': f'{name_of(sh)}: time limit', 'obligations': []}))
+    finally:
+        for pid in list(running):
+            try:
+                os.kill(pid, signal.SIGKILL)
+                os.waitpid(pid, 0)
+            except Exception:
+                pass
+    # merge
+    worst = 'ok'
+    msgs = []
+    for sh, res in results:
+        for od in res.get('obligations', []):
+            o = Obligation(od['id'], od['kind'], od['function'], od.get('text', ''))
+            o.status, o.backend, o.seconds = od['status'], od.get('backend'), od.get('seconds', 0.0)
+            o.detail, o.model, o.replay = od.get('detail', ''), od.get('model'), od.get('replay')
+            o.smt_size = od.get('smt_chars', 0)
+            ctx.obligations.append(o)
+            if o.status in (PROVED, REFUTED) and o.backend:
+                ctx.backends[o.backend] = ctx.backends.get(o.backend, 0) + 1
+        for k, v in (res.get('backend_s') or {}).items():
+            ctx.backend_s[k] = ctx.backend_s.get(k, 0.0) + v
+        if res.get('status') == 'crash':
+            worst = 'crash'
+            msgs.append(res.get('message', ''))
+        elif res.get('status') == 'undecided' and worst != 'crash':
+            worst = 'undecided'
+            msgs.append(res.get('message', ''))
+    return worst, '; '.join(m for m in msgs if m)[:1500]
+
+
 
 
 def model_to_dict(m, limit=40):
